@@ -669,6 +669,9 @@ func (t *gTemplate) source() string {
 			}
 		}
 		b.WriteString(" */\n")
+	} else if len(t.body)%3 == 0 {
+		// a doc comment that declares no param is not "soydoc params": header params may follow it
+		b.WriteString([]string{"/** Describes the template. */\n", "/**\n * Describes the template:\n * no params here.\n */\n"}[len(t.body)/3%2])
 	}
 	b.WriteString("{template ." + t.short)
 	if t.autoesc != "" {
